@@ -848,6 +848,21 @@ impl<'s, const M: usize> Exec<'s, M> {
                             format!("chunk_capacity {} before, {} after", cc0, self.cc()),
                         );
                     }
+                    if self.viol.is_empty() && new_chunk {
+                        // the chunk opened for the failed value is empty again: what it can still
+                        // serve is at most what lies below its bookkeeping
+                        if let Some(e) = self.held.iter().max_by_key(|e| e.seq) {
+                            let usable = e.size.saturating_sub(self.k);
+                            if self.cc() > usable {
+                                self.violate(
+                                    "C11",
+                                    "failed-value-left-finger-in-bookkeeping",
+                                    "",
+                                    format!("chunk of {} bytes ({} usable) claims {} available after the failed value was taken back", e.size, usable, self.cc()),
+                                );
+                            }
+                        }
+                    }
                     if self.viol.is_empty() {
                         self.follow_up_same_layout(slot, where_);
                     }
@@ -927,8 +942,12 @@ impl<'s, const M: usize> Exec<'s, M> {
                     .next_back()
                     .map(|(&pa, pb)| pa + pb.size > a)
                     .unwrap_or(false);
+                let in_footer = self.chunk_of(a, layout.size()).map(|e| a + layout.size() > e.user + e.size - self.k).unwrap_or(false);
                 if !inside {
                     self.violate("C01", "outside-held-memory", "follow-up", String::new());
+                } else if in_footer {
+                    self.violate("C11", "failed-value-left-finger-in-bookkeeping", "follow-up", String::new());
+                    self.violate("C01", "inside-bookkeeping", "follow-up", String::new());
                 } else if clash {
                     self.violate("C01", "overlap", "follow-up", String::new());
                 }
